@@ -108,9 +108,17 @@ def gen_alt(rnd, row_for_verbs=None):
         ot, ov = opt()
         return t + ot, {"k": "Noun", "typ": t, "o": ov}
     if k == "Verb":
+        if row_for_verbs and rnd.random() < 0.3:
+            # the okuri letter names the row of the first okurigana kana, the verb conjugates in another row, a fixed okurigana
+            # bridges the two:  かw /変;∥ラ行五段(-わる)/   (written stem 変, dictionary form 変わる)
+            crow = rnd.choice(["カ", "サ", "タ", "マ", "ラ", "ワ", "ガ", "バ"])
+            fix = rnd.choice(GRID[row_for_verbs][:5]) + GRID[crow][2 if crow != "ワ" else 3]
+            return crow + "行五段(-" + fix + ")", {"k": "Verb", "form": {"Godan": crow}, "o": {"fix": fix}}
         row = row_for_verbs or rnd.choice(ROWS)
         suf, cls = rnd.choice(VERB_SUFFIX)
         ot, ov = opt()
+        if row_for_verbs and ov is not None and "fix" in ov:
+            return row + suf, {"k": "Verb", "form": {cls: row}, "o": None}       # keep the letter and the okurigana consistent
         return row + suf + ot, {"k": "Verb", "form": {cls: row}, "o": ov}
     tag = {"Adjective": "形容詞", "AdjectivalVerb": "形容動詞", "Adverb": "副詞", "Counter": "助数詞", "Verbatim": "感動詞", "PreNoun": "連体詞",
            "Subsidiary": "補助動詞", "ConjParticle": "接続助詞", "Conjunction": "接続詞"}[k]
@@ -149,6 +157,15 @@ def gen_note_line(rnd):
             text += "/" + stem
         else:
             text += "/" + stem + ";" + annot
+    if okuri:
+        # a one-grade (ichidan) verb keeps the row kana inside what precedes る: its headword ends in the i- / e-grade kana of the row
+        classes = {list(e["speech"]["form"])[0] for e in entries if e["speech"]["k"] == "Verb"}
+        if "KamiIchidan" in classes and "SimoIchidan" in classes:
+            return gen_note_line(rnd)
+        if "KamiIchidan" in classes:
+            headword = headword[:-1] + GRID[row][1]
+        elif "SimoIchidan" in classes:
+            headword = headword[:-1] + GRID[row][3 if row != "ワ" else 5]
     line = headword + okuri + blanks + text + "/"
     want = {"headword": headword, "okuri": okuri, "entries": entries} if entries else None
     return line, want, (row if okuri else None)
@@ -227,6 +244,89 @@ def check_emitted(res, what, line, em, want_reading, want_word, want_speech):
                       {"kind": "emitted", "converter": what, "line": line, "emitted": em["line"], "readback": rb, "want": want})
         return False
     return True
+
+
+def build_converters():
+    from srv import TARGET_REPO
+    env = dict(os.environ, CARGO_NET_OFFLINE="true", CARGO_TARGET_DIR=TARGET_REPO, RUSTFLAGS="--cfg chokan_verif")
+    rc, out = sh(["timeout", "1500", "cargo", "build", "--offline", "-p", "skk-noun-converter", "-p", "skk-jinmei-converter", "-p", "skk-tankan-converter", "-p", "skk-notes-converter"], cwd=REPO, env=env)
+    return rc == 0, out, os.path.join(TARGET_REPO, "debug")
+
+
+def end_to_end(res, rnd, skk_lines, skk_results, note_lines, note_results):
+    """the converters as programs: an EUC-JP file of well-formed lines with undecodable / unparsable lines in between; what is written must be
+    exactly what the per-line functions emit for the lines of the file - one bad line never ends or aborts the import"""
+    okb, blog, bindir = build_converters()
+    if not okb:
+        res.tie_broken("the SKK converters no longer build", blog[-1200:])
+        return 0
+    from srv import workdir, cleanup
+    wd = workdir("c18e")
+    n = 0
+    junk = [b"\xff", b"\xa4", b"\x8e\xff\xff", b"\xff\xa4\xa2 /x/", b"\x8f\xa1", b"", b";; comment", b"abc /x/", b"\xa4\xa2\xa4\xa2"]
+    # characters on which Python's euc_jp and the WHATWG EUC-JP decoder of encoding_rs disagree are kept out of the file; the notes
+    # separator U+2225 is written as the bytes A1 C2, which encoding_rs decodes back to U+2225
+    RISKY = set("\u301c\u2016\u2212\u00a2\u00a3\u00ac\u2014\u00a5\u203e\uff5e\uff0d\uffe0\uffe1\uffe2\u2015")
+    def enc(l):
+        return l.replace("\u2225", "\u2016").encode("euc_jp")
+    try:
+        def encodable(l):
+            try:
+                return "\n" not in l and "\r" not in l and not (set(l) & RISKY) and enc(l).decode("euc_jp").replace("\u2016", "\u2225") == l
+            except UnicodeError:
+                return False
+        def make_file(name, items):
+            """items: [(line, expected emitted lines)] ; returns the expected emitted lines of the whole file, in file order"""
+            body, exp = [], []
+            for l, e in items:
+                if rnd.random() < 0.15:
+                    body.append(rnd.choice(junk))
+                body.append(enc(l))
+                exp += e
+            body.insert(len(body) // 2, b"\xff\xfe")
+            open(os.path.join(wd, name), "wb").write(b"\n".join(body) + b"\n")
+            return exp
+        # noun / jinmei / tankan
+        for tool, key, ordered in (("skk-noun-converter", "noun", True), ("skk-jinmei-converter", "prop", True), ("skk-tankan-converter", "tank", False)):
+            items = []
+            for l, rr in zip(skk_lines, skk_results[key]):
+                if encodable(l) and "panic" not in rr:
+                    items.append((l, [e["line"] for e in (rr.get("ok") or [])] if "err" not in rr else []))
+            items = items[:300]
+            exp = make_file(key + ".euc", items)
+            pr = subprocess.run([os.path.join(bindir, tool), os.path.join(wd, key + ".euc")], stdout=subprocess.PIPE, stderr=subprocess.DEVNULL, timeout=120)
+            rc, out = pr.returncode, pr.stdout.decode("utf-8", errors="replace")
+            got = [x for x in out.split("\n") if x]
+            n += len(items)
+            if rc != 0:
+                res.violation(f"{tool} exits with {rc} on a file of well-formed lines with a few undecodable lines in between: {out[-300:]}", {"kind": "e2e", "tool": tool})
+            elif (got != exp) if ordered else (sorted(set(got)) != sorted(set(exp))):
+                missing = [x for x in exp if x not in got][:3]
+                extra = [x for x in got if x not in exp][:3]
+                res.violation(f"{tool}: the written dictionary differs from what its lines say: missing {missing}, unexpected {extra} ({len(got)} vs {len(exp)} lines)",
+                              {"kind": "e2e", "tool": tool, "missing": missing, "extra": extra})
+        # notes (ancillary = affix entries are not written; the set is unordered)
+        items = []
+        for l, rr in zip(note_lines, note_results):
+            if encodable(l) and "panic" not in rr and not isinstance(rr.get("conv"), dict):
+                items.append((l, [c["line"] for c in (rr.get("conv") or []) if not c["ancillary"]] if rr.get("ok") else []))
+        items = items[:400]
+        exp = make_file("notes.euc", items)
+        outp = os.path.join(wd, "notes.out")
+        pr = subprocess.run([os.path.join(bindir, "skk-notes-converter"), os.path.join(wd, "notes.euc"), outp], stdout=subprocess.PIPE, stderr=subprocess.PIPE, timeout=120)
+        rc, out = pr.returncode, pr.stderr.decode("utf-8", errors="replace")
+        n += len(items)
+        got = [x for x in open(outp, encoding="utf-8").read().split("\n") if x] if os.path.exists(outp) else []
+        if rc != 0:
+            res.violation(f"skk-notes-converter exits with {rc} on a file whose verbs are all supported: {out[-300:]}", {"kind": "e2e", "tool": "skk-notes-converter"})
+        elif sorted(set(got)) != sorted(set(exp)):
+            missing = [x for x in exp if x not in got][:3]
+            extra = [x for x in got if x not in exp][:3]
+            res.violation(f"skk-notes-converter: the written dictionary differs from what its lines say: missing {missing}, unexpected {extra} ({len(set(got))} vs {len(set(exp))} lines)",
+                          {"kind": "e2e", "tool": "skk-notes-converter", "missing": missing, "extra": extra})
+    finally:
+        cleanup(wd)
+    return n
 
 
 def run(tier, seed):
@@ -328,14 +428,16 @@ def run(tier, seed):
             else:
                 res.violation(f"the verb entry {em['line']!r} emitted for {l!r} cannot be conjugated: {r['panic']}", {"kind": "base_verb", "line": l, "emitted": em["line"], "panic": r["panic"]})
             continue
-        # judged on the reading side: okurigana = what follows the stem reading; for the k-irregular verb the row kana is the
-        # last kana of the stem reading itself (く -> こ/き/く), so it is compared from one character earlier
-        sr = em["headword"]
-        cut = len(sr) - 1 if (cls, vrow) == ("Hen", "カ") else len(sr)
-        okuris = [rd[cut:] for _, rd in r.get("ok", []) if rd.startswith(sr[:cut])]
-        if not any(o and o[0] in GRID[vrow] for o in okuris):
-            res.violation(f"no conjugated word of {em['line']!r} (from {l!r}) has an okurigana beginning in row {vrow}: {okuris!r}",
-                          {"kind": "base_verb_row", "line": l, "emitted": em["line"], "okuris": okuris})
+        # judged on the reading side against the row the okuri LETTER names: some conjugated reading continues the SKK headword with a
+        # kana of that row, or - where the row kana belongs to the stem itself (the one-grade verbs written like 経る, and the k-irregular
+        # verb く -> こ/き/く) - has a kana of that row AT the headword's last position
+        hw = next(w["headword"] for (l2, w, _r) in notes if l2 == l and w)
+        rds = [rd for _, rd in r.get("ok", [])]
+        ok_row = any((rd.startswith(hw) and len(rd) > len(hw) and rd[len(hw)] in GRID[row]) or
+                     (rd.startswith(hw[:-1]) and len(rd) >= len(hw) and rd[len(hw) - 1] in GRID[row]) for rd in rds)
+        if not ok_row:
+            res.violation(f"no conjugated word of {em['line']!r} (from {l!r}) continues the headword {hw!r} with a kana of row {row}, the row its okuri letter names: {sorted(set(rds))[:8]!r}",
+                          {"kind": "base_verb_row", "line": l, "emitted": em["line"], "readings": rds})
 
     # ---- C: arbitrary text: every parser and converter returns a value (model = implementation), never panics
     bad = []
@@ -384,6 +486,9 @@ def run(tier, seed):
                 for em in (r.get("ok") or []):
                     check_emitted(res, nm, l, em, em["entry"]["reading"], em["entry"]["stem"], em["entry"]["speech"])
 
+    # ---- E2E: the converter programs on EUC-JP files
+    n_e2e = end_to_end(res, rnd, lines, {"noun": r_noun, "prop": r_prop, "tank": r_tank}, [x[0] for x in notes], r_note)
+
     # ---- D: the model agrees with the implementation on every line above (well-formed and arbitrary)
     skk_cases, note_cases = [], []
     all_skk = list(zip(lines, r_line, r_noun, r_prop, r_tank)) + list(zip(bad, rb_line, rb_noun, rb_prop, rb_tank))
@@ -417,12 +522,12 @@ def run(tier, seed):
                 res.tie_broken(f"correspondence: Skk/Notes.v / NotesConv.v and the implementation disagree on {note_src[i]!r}", {"line": note_src[i], "case": note_cases[i][:600]})
 
     dist.update({"notes_wellformed": len(notes), "notes_with_entries": sum(1 for _, w, _ in notes if w), "note_speech_kinds": tags_seen, "emitted_note_lines": n_emitted,
-                 "notes_rejected_unsupported": n_unsupported, "base_verb_entries_conjugated": n_base_verbs, "arbitrary_lines": len(bad), "arbitrary_outcomes": outcomes})
+                 "notes_rejected_unsupported": n_unsupported, "base_verb_entries_conjugated": n_base_verbs, "arbitrary_lines": len(bad), "arbitrary_outcomes": outcomes, "lines_through_the_converter_programs": n_e2e})
     cov = {
         "obligations": info["obligations"], "discharged": info["discharged"], "checker_cmd": "make Props/C18.vo in /verif/coq + Print Assumptions",
         "trusted_base": TRUSTED_COMMON + ["the notes grammar and the converter functions are modelled by hand (Skk/Notes.v, Skk/NotesConv.v) against a hash-pinned source text; the okurigana table is generated",
                                           "the SKK line grammar's rule shapes are pinned, its character classes generated",
-                                          "reading the EUC-JP file, splitting it into lines and the HashSet de-duplication in the converters' main.rs are not modelled"],
+                                          "reading the EUC-JP file, splitting it into lines and the HashSet de-duplication in the converters' main.rs are not modelled; they are exercised end to end on generated EUC-JP files with undecodable lines"],
         "axioms": info["axioms"],
         "evaluations": len(skk) * 4 + len(notes) + len(bad) * 5, "distinct_nontrivial": dist["notes_with_entries"] + dist["skk_wellformed"],
         "rule": "generated well-formed SKK lines (readings, okuri letters, blanks, words, annotations) and notes lines (all tags, fixed/class okuri, multi-entry, annotations, notes, derived / okuri-nasi / bare entries); "
